@@ -198,4 +198,17 @@ func init() {
 		Assumptions: []string{"queries are given in normal form (ConditionsSet built directly; the parser side is C03)", "stream population: fixed concrete streams written by the real writer; what varies symbolically are the query constants, tag match bits and the id restriction", "oracle: filter by the harness's own reading of the query on its own stream records, rank by the sort key with ties in any order, page, more <=> matches beyond the page"},
 		Outside: []string{"grouping", "sub-queries feeding variables", "data conditions (C04)", "more than 4 streams / 2 files", "host conditions"},
 	}
+
+	mg := "internal/index/manager"
+	registry["C11"] = CheckSpec{Property: "C11",
+		Harnesses: []HarnessSpec{
+			{Pkg: mg, Func: "ZZ_C11_TagCalls", Isolate: true, Desc: "every history of 2 calls", Quick: tier(map[string]int{"calls": 2, "names": 3, "defs": 10, "loopbound": 2000}),
+				Bounds: "calls from {AddTag, UpdateTag(query), UpdateTag(colour), UpdateTag(name), DelTag, UpdateTag(query+colour+mark stream)} on names {tag/a, tag/b, mark/m} with 10 definitions (plain, references to existing/missing tags, sub-query reference, id list, unparsable)"},
+			{Pkg: mg, Func: "ZZ_C11_TagCalls", Isolate: true, Desc: "every history of 3 calls (add / update query / delete / rename)", Quick: tier(map[string]int{"calls": 3, "names": 2, "defs": 3, "callset": 1, "callkinds": 4, "loopbound": 2000}),
+				Thorough: tier(map[string]int{"calls": 4, "names": 2, "defs": 3, "callset": 1, "callkinds": 3, "loopbound": 2000}), Bounds: "reference cycles need three calls; inheritTagUncertainty loop bound 2000 (derived: one pass per tag) as unwinding assertion"},
+			{Pkg: mg, Func: "ZZ_C11_TagCalls", Isolate: true, Desc: "3 calls with sub-query references and renames", Quick: tier(map[string]int{"calls": 3, "names": 2, "defs": 2, "deffrom": 5, "callset": 1, "callkinds": 4, "loopbound": 2000})},
+		},
+		Assumptions: []string{"Manager constructed in-package as New() does, without watchers, converters and stored state; the real service loop goroutine runs under the engine's cooperative run-to-block scheduler (FIFO)", "stubbed out: saveState (JSON via reflection), startTaggingJobIfNeeded/startConverterJobIfNeeded/startMergeJobIfNeeded (no effect on the tag table), query.Parse = table of the definitions used (natively the real parser)", "oracle: digest of all tags unchanged when a call returns an error; every reference resolves; referencedBy mirrors the definitions; the graph is acyclic; ListTags.Referenced mirrors the definitions"},
+		Outside: []string{"converter attach/detach (external processes)", "histories longer than 3 (4) calls", "mark removal", "concurrent API callers"},
+	}
 }
